@@ -60,3 +60,13 @@ Theorem C01_tags_set_nil_refuted :
   exists k v t', tags_set None k v = Some t' /\ tags_get t' k = None.
 Proof. exact tags_set_nil_loses_value. Qed.
 Print Assumptions C01_tags_set_nil_refuted.
+
+(* Conversely: for every line of the C02 grammar (valid UTF-8 fields, de-duplicated tag
+   section within the limit), parsing it, serialising the result and parsing again yields
+   the same event. *)
+Require Import StableProofs.
+Theorem C01_parse_stable : forall a, wf_ast a -> ast_utf8 a = true -> ast_tags_fit a = true ->
+  exists e e', parse_event (render a) = Ok (Some e) /\
+               parse_event (event_bytes e) = Ok (Some e') /\ wevent_equiv e' e.
+Proof. exact parse_stable. Qed.
+Print Assumptions C01_parse_stable.
